@@ -51,6 +51,7 @@ def cases(tier, seed):
     defs += [with_sensors(d) for d in space.family_piecewise() if len(d["state"]) == 2] + space.family_piecewise()[1:2]
     # symbols declared with sympy assumptions (Symbol("x", real=True) is a different object from Symbol("x"))
     defs += [space.assumed(defs[13]), space.assumed(defs[22], ["x", "w"])]
+    defs += [space.with_unused(defs[13]), space.with_unused(defs[17])]  # a declared but unused control / calibration value
     if tier == "quick":
         special = [d for d in ops if any(t in d["name"] for t in ("atan-tan", "tan-atan", "log-exp", "sqrt-square", "div-by-", "inv-square",
                                                                    "reciprocal", "log-square", "log-prod", "log-neg")) and d not in ops[::3]]
@@ -146,10 +147,17 @@ def eval_case(case):
         fails.append({"key": f"{key}@{d['name'].split('-')[0]}", "what": f"{tag}: {what}"})
 
     pts = points_for(d, case["seed"])
+    percal = case["path"] == "ekf" and bool(d["calibration"])
+    if percal:
+        # calibration is an ARGUMENT of the generated functions: the same process evaluates them with the definition's calibration,
+        # with another one, and with the first again
+        cal0 = dict((k_, v_) for k_, v_ in d["calmap"])
+        cal1 = {k_: v_ * -1.5 + 0.375 * (i_ + 1) for i_, (k_, v_) in enumerate(sorted(cal0.items()))}
+        pts = [dict(p_, cal=cal0) for p_ in pts] + [dict(p_, cal=cal1) for p_ in pts[:3]] + [dict(p_, cal=cal0) for p_ in pts[:1]]
     if case["path"] == "model":
         res = cppharness.build_and_run_model(d, {"cse": case["cse"]}, pts)
     else:
-        res = cppharness.build_and_run_ekf(d, {"cse": case["cse"], "innovation_filtering": None}, pts)
+        res = cppharness.build_and_run_ekf(d, {"cse": case["cse"], "innovation_filtering": None}, pts, cal_per_point=percal)
     if not res["ok"]:
         fail(f"{res['stage']}-failed", f"{res['stage']} failed: {res['error']}")
         return {"n": 1, "fails": fails, "outcomes": [f"{res['stage']}-failed"]}
@@ -170,6 +178,8 @@ def eval_case(case):
 
     for p, pt in enumerate(pts):
         full = ref.env(pt["env"])
+        if percal:
+            full.update(pt["cal"])
         try:
             fx = ref.fx(full)
             G, V = ref.G(full), ref.V(full)
